@@ -154,3 +154,13 @@ def shard(mon, tier, rng, shard_no, nshards):
     else:
         random_sets(mon, rng, 200, 150)
         random_sets(mon, rng, 10, 300)
+
+
+def replay(mon, rec):
+    c = rec["case"]
+    W = np.array(c["W"], float)
+    order = gen.make_order("W", W=W)
+    X = np.array(c["X"], float)
+    print("fast :", order.get_pareto_set(X.copy()).tolist())
+    print("naive:", order.get_pareto_set_naive(X.copy()).tolist())
+    check_case(mon, order, W, X, "replay", exact=False)
